@@ -32,7 +32,15 @@ def _compare(case, mode):
     if mode == 'mux':
         r = drive.stepped(items, lambda src: src.pipe(rs.state.with_memory_store(A.build_pipeline(p, env))))
     else:
-        r = drive.stepped(items, lambda src: src.pipe(*A.build_pipeline(p, env)))
+        ops = A.build_pipeline(p, env)
+        if case.get('reuse'):
+            # the operator objects first serve another plain source whose subscriber leaves after one output (a new
+            # observable is built each time): the timed run below must not find anything left over
+            import rx
+            import rx.operators as rxops
+            drive.collect(rx.from_(list(items)).pipe(*ops, rxops.take(1)))
+            env.actions[:] = []
+        r = drive.stepped(items, lambda src: src.pipe(*ops))
     H.require_clean(r.res, 'stepped ' + mode, pipeline=p, items=items)
     es, gs = H.by_step(exp, n), H.by_step(r.out, n)
     for step in range(n + 2):
@@ -61,6 +69,13 @@ def check_plain(case):
     return _compare(case, 'plain')
 
 
+@st.composite
+def plain_case(draw):
+    case = draw(H.pipeline_case(PLAIN, max_items=14, min_len=1))
+    case['reuse'] = draw(st.booleans())
+    return case
+
+
 MUX = gen.Opts(mux=True, max_depth=3, max_len=4, weights={'window': 9, 'tee': 5})
 PLAIN = gen.Opts(mux=False, max_depth=2, max_len=4, weights={'tee': 6, 'seq': 6})
 
@@ -78,6 +93,6 @@ def subs(tier):
             doc='with_memory_store(pipeline) on a stepped source vs timed model, per-step multisets'),
         Sub('big', check_mux, enum=big_enum, doc='large batch sizes (256, 257, 300), alone and inside roll: every batch appears with its closing item'),
         Sub('big_plain', check_plain, enum=lambda tier: (c for c in big_enum(tier) if c['p'][0][0] == 'batch'), doc='the same on plain observables'),
-        Sub('plain', check_plain, gen=lambda: H.pipeline_case(PLAIN, max_items=14, min_len=1), examples={'quick': 1500, 'thorough': 120000},
+        Sub('plain', check_plain, gen=plain_case, examples={'quick': 1500, 'thorough': 120000},
             doc='the dual-mode operators on a plain stepped observable (take/first complete early) vs timed model'),
     ]
